@@ -1,5 +1,403 @@
-import GettsimVerif.Core.Agg
-namespace GV.Props.C11
-/-- placeholder until the real file lands -/
-theorem placeholder : (1 : Nat) = 1 := rfl
-end GV.Props.C11
+import GettsimVerif.Lemmas.Agg
+/-
+Property C11: the scatter/gather aggregation algorithms (`grouped_*`, `sum_by_p_id`,
+`join_numpy`) equal their mathematical definition.
+
+Spec vocabulary (defined in `Lemmas/Agg.lean`):
+* `members gid col g` : values of the rows whose group id is `g`, in row order;
+* `WF gid col`        : `gid.length = col.length ∧ ∀ g ∈ gid, 0 ≤ g`;
+* `groupVal f dflt l` : `dflt` if `l = []`, else `vs.foldl f v` for `l = v :: vs`.
+`List.sum` is core `List.sum` (`foldr (· + ·) 0`).
+-/
+namespace GV.Agg
+
+/-! ## 1. generic specification -/
+
+/-- C11.1 The generic grouped reduction returns, for every row, the left fold of `f` over the
+members of the row's group (in row order); `dflt` is only used for an empty group. -/
+theorem grouped_spec {α : Type} (f : α → α → α) (dflt : α) (col : List α) (gid : List Int)
+    (h : WF gid col) :
+    grouped f dflt col gid = .ok (gid.map fun g =>
+      match members gid col g with
+      | [] => dflt
+      | v :: vs => vs.foldl f v) := by
+  rw [grouped_eq f dflt col gid h]
+  congr 1
+
+/-- C11.1' Same statement with the named spec function `groupVal`; moreover no group that is
+gathered is empty, so `dflt` never shows up in the result. -/
+theorem grouped_spec' {α : Type} (f : α → α → α) (dflt : α) (col : List α) (gid : List Int)
+    (h : WF gid col) :
+    grouped f dflt col gid = .ok (gid.map fun g => groupVal f dflt (members gid col g)) ∧
+    ∀ g ∈ gid, members gid col g ≠ [] :=
+  ⟨grouped_eq f dflt col gid h, fun g hg => members_ne_nil gid col g h.1 hg⟩
+
+example : WF [5, 0, 5, 3] ([1, 2, 3, 4] : List Rat) := ⟨rfl, by decide⟩
+example : members [5, 0, 5, 3] ([1, 2, 3, 4] : List Rat) 5 = [1, 3] := by decide +kernel
+example : grouped (fun a b : Int => a - b) 7 [10, 2, 3, 4] [5, 0, 5, 3] = .ok [7, 2, 7, 4] := by
+  decide +kernel
+
+/-! ## 2. corollaries for the concrete aggregations -/
+
+/-- C11.2a `grouped_sum` (ℚ) = sum (`List.sum`) of the members of the row's group. -/
+theorem groupedSum_spec (col : List Rat) (gid : List Int) (h : WF gid col) :
+    groupedSum col gid = .ok (gid.map fun g => (members gid col g).sum) := by
+  unfold groupedSum
+  rw [grouped_eq _ _ col gid h]
+  simp only [groupVal_add]
+
+/-- C11.2b `grouped_sum` (ℤ) = sum of the members of the row's group. -/
+theorem groupedSumInt_spec (col : List Int) (gid : List Int) (h : WF gid col) :
+    groupedSumInt col gid = .ok (gid.map fun g => (members gid col g).sum) := by
+  unfold groupedSumInt
+  rw [grouped_eq _ _ col gid h]
+  simp only [groupVal_add]
+
+/-- C11.2c `grouped_count` = number of rows of the row's group. -/
+theorem groupedCount_spec (gid : List Int) (h : ∀ g ∈ gid, 0 ≤ g) :
+    groupedCount gid = .ok (gid.map fun g => ((members gid gid g).length : Int)) := by
+  unfold groupedCount
+  rw [grouped_eq _ _ _ gid ⟨by simp, h⟩]
+  simp only [groupVal_add, members_map, sum_map_one]
+
+/-- C11.2d `grouped_any` = disjunction over the members of the row's group. -/
+theorem groupedAny_spec (col : List Bool) (gid : List Int) (h : WF gid col) :
+    groupedAny col gid = .ok (gid.map fun g => (members gid col g).any id) := by
+  unfold groupedAny
+  rw [grouped_eq _ _ col gid h]
+  simp only [groupVal_or]
+
+/-- C11.2e `grouped_all` = conjunction over the members of the row's group. -/
+theorem groupedAll_spec (col : List Bool) (gid : List Int) (h : WF gid col) :
+    groupedAll col gid = .ok (gid.map fun g => (members gid col g).all id) := by
+  unfold groupedAll
+  rw [grouped_eq _ _ col gid h]
+  simp only [groupVal_and]
+
+/-- C11.2f `grouped_max`: the result has one entry per row; the entry of a row with group `g`
+is an element of the group's members and an upper bound of them. -/
+theorem groupedMax_spec (col : List Rat) (gid : List Int) (h : WF gid col) :
+    ∃ res, groupedMax col gid = .ok res ∧ res.length = gid.length ∧
+      ∀ (i : Nat) (g : Int), gid[i]? = some g →
+        ∃ m, res[i]? = some m ∧ m ∈ members gid col g ∧ ∀ x ∈ members gid col g, x ≤ m := by
+  refine ⟨_, grouped_eq _ _ col gid h, by simp, ?_⟩
+  intro i g hi
+  have hg : g ∈ gid := List.mem_of_getElem? hi
+  refine ⟨groupVal max 0 (members gid col g), by simp [hi], ?_⟩
+  exact groupVal_max_spec 0 _ (members_ne_nil gid col g h.1 hg)
+
+/-- C11.2g `grouped_min`: the entry of a row with group `g` is an element of the group's members
+and a lower bound of them. -/
+theorem groupedMin_spec (col : List Rat) (gid : List Int) (h : WF gid col) :
+    ∃ res, groupedMin col gid = .ok res ∧ res.length = gid.length ∧
+      ∀ (i : Nat) (g : Int), gid[i]? = some g →
+        ∃ m, res[i]? = some m ∧ m ∈ members gid col g ∧ ∀ x ∈ members gid col g, m ≤ x := by
+  refine ⟨_, grouped_eq _ _ col gid h, by simp, ?_⟩
+  intro i g hi
+  have hg : g ∈ gid := List.mem_of_getElem? hi
+  refine ⟨groupVal min 0 (members gid col g), by simp [hi], ?_⟩
+  exact groupVal_min_spec 0 _ (members_ne_nil gid col g h.1 hg)
+
+/-- C11.2h `grouped_mean` = sum of the members divided by their number; the number of members
+of every gathered group is at least 1 (no division by zero). -/
+theorem groupedMean_spec (col : List Rat) (gid : List Int) (h : WF gid col) :
+    groupedMean col gid = .ok (gid.map fun g =>
+      (members gid col g).sum / ((members gid col g).length : Rat)) ∧
+    ∀ g ∈ gid, 1 ≤ (members gid col g).length := by
+  constructor
+  · unfold groupedMean
+    rw [groupedSum_spec col gid h, groupedCount_spec gid h.2]
+    simp only [bind, Except.bind, pure, Except.pure]
+    congr 1
+    rw [List.zipWith_map, List.zipWith_self]
+    apply List.map_congr_left
+    intro g _
+    rw [members_length gid col g h.1]
+    simp
+  · intro g hg
+    rw [members_length gid col g h.1]
+    exact members_self_length_pos gid g hg
+
+example : groupedSum [1, 2, 3, 4] [5, 0, 5, 3] = .ok [4, 2, 4, 4] := by decide +kernel
+example : groupedMean [1, 2, 4, 4] [5, 0, 5, 3] = .ok [5/2, 2, 5/2, 4] := by decide +kernel
+example : groupedMax [1, -2, 3, 4] [5, 0, 5, 3] = .ok [3, -2, 3, 4] := by decide +kernel
+example : groupedMin [1, -2, 3, 4] [5, 0, 5, 3] = .ok [1, -2, 1, 4] := by decide +kernel
+example : groupedCount [5, 0, 5, 3] = .ok [2, 1, 2, 1] := by decide +kernel
+example : groupedAny [false, false, true, false] [5, 0, 5, 3] = .ok [true, false, true, false] := by
+  decide +kernel
+example : groupedAll [false, true, true, true] [5, 0, 5, 3] = .ok [false, true, false, true] := by
+  decide +kernel
+
+/-! ## 3. constant within a group -/
+
+/-- C11.3 Whenever the generic grouped reduction succeeds, two rows with the same group id get
+the same value. -/
+theorem grouped_const_within_group {α : Type} (f : α → α → α) (dflt : α) (col : List α)
+    (gid : List Int) (res : List α) (h : grouped f dflt col gid = .ok res)
+    (i j : Nat) (g : Int) (hi : gid[i]? = some g) (hj : gid[j]? = some g) :
+    ∃ v, res[i]? = some v ∧ res[j]? = some v := by
+  rw [grouped_ok_eq f dflt col gid res h]
+  exact ⟨groupVal f dflt (members gid col g), by simp [hi], by simp [hj]⟩
+
+example : ([5, 0, 5, 3] : List Int)[0]? = some 5 ∧ ([5, 0, 5, 3] : List Int)[2]? = some 5 := by
+  decide
+
+/-! ## 4. invariance under permutation of the rows -/
+
+/-- C11.4 (generic) for a commutative and associative `f`, the group value does not depend on
+the order of the rows. -/
+theorem grouped_fold_perm {α : Type} (f : α → α → α) (dflt : α)
+    (hc : ∀ a b, f a b = f b a) (ha : ∀ a b c, f (f a b) c = f a (f b c))
+    {rows rows' : List (Int × α)} (h : rows'.Perm rows) (g : Int) :
+    groupVal f dflt (members (rows'.map (·.1)) (rows'.map (·.2)) g) =
+      groupVal f dflt (members (rows.map (·.1)) (rows.map (·.2)) g) :=
+  groupVal_perm f dflt hc ha (members_perm h g)
+
+/-- C11.4a group sums are invariant under row permutations. -/
+theorem grouped_sum_perm {rows rows' : List (Int × Rat)} (h : rows'.Perm rows) (g : Int) :
+    (members (rows'.map (·.1)) (rows'.map (·.2)) g).sum =
+      (members (rows.map (·.1)) (rows.map (·.2)) g).sum :=
+  (members_perm h g).sum_eq
+
+/-- C11.4b group counts are invariant under row permutations. -/
+theorem grouped_count_perm {α : Type} {rows rows' : List (Int × α)} (h : rows'.Perm rows) (g : Int) :
+    (members (rows'.map (·.1)) (rows'.map (·.1)) g).length =
+      (members (rows.map (·.1)) (rows.map (·.1)) g).length := by
+  rw [← members_length _ (rows'.map (·.2)) g (by simp), ← members_length _ (rows.map (·.2)) g (by simp)]
+  exact (members_perm h g).length_eq
+
+/-- C11.4c group disjunctions are invariant under row permutations. -/
+theorem grouped_any_perm {rows rows' : List (Int × Bool)} (h : rows'.Perm rows) (g : Int) :
+    (members (rows'.map (·.1)) (rows'.map (·.2)) g).any id =
+      (members (rows.map (·.1)) (rows.map (·.2)) g).any id :=
+  any_id_perm (members_perm h g)
+
+/-- C11.4d group conjunctions are invariant under row permutations. -/
+theorem grouped_all_perm {rows rows' : List (Int × Bool)} (h : rows'.Perm rows) (g : Int) :
+    (members (rows'.map (·.1)) (rows'.map (·.2)) g).all id =
+      (members (rows.map (·.1)) (rows.map (·.2)) g).all id :=
+  all_id_perm (members_perm h g)
+
+/-- C11.4e group maxima are invariant under row permutations. -/
+theorem grouped_max_perm {rows rows' : List (Int × Rat)} (h : rows'.Perm rows) (g : Int) :
+    groupVal max 0 (members (rows'.map (·.1)) (rows'.map (·.2)) g) =
+      groupVal max 0 (members (rows.map (·.1)) (rows.map (·.2)) g) :=
+  grouped_fold_perm max 0 max_comm max_assoc h g
+
+/-- C11.4f group minima are invariant under row permutations. -/
+theorem grouped_min_perm {rows rows' : List (Int × Rat)} (h : rows'.Perm rows) (g : Int) :
+    groupVal min 0 (members (rows'.map (·.1)) (rows'.map (·.2)) g) =
+      groupVal min 0 (members (rows.map (·.1)) (rows.map (·.2)) g) :=
+  grouped_fold_perm min 0 min_comm min_assoc h g
+
+/-- C11.4g end-to-end: for commutative-associative `f` and permuted rows, a row of the permuted
+table with group `g` gets the same value as any row with group `g` in the original table. -/
+theorem grouped_perm_rows {α : Type} (f : α → α → α) (dflt : α)
+    (hc : ∀ a b, f a b = f b a) (ha : ∀ a b c, f (f a b) c = f a (f b c))
+    {rows rows' : List (Int × α)} (h : rows'.Perm rows) (res res' : List α)
+    (hr : grouped f dflt (rows.map (·.2)) (rows.map (·.1)) = .ok res)
+    (hr' : grouped f dflt (rows'.map (·.2)) (rows'.map (·.1)) = .ok res')
+    (i j : Nat) (g : Int) (hi : (rows'.map (·.1))[i]? = some g) (hj : (rows.map (·.1))[j]? = some g) :
+    ∃ v, res'[i]? = some v ∧ res[j]? = some v := by
+  rw [grouped_ok_eq f dflt _ _ res hr, grouped_ok_eq f dflt _ _ res' hr']
+  refine ⟨groupVal f dflt (members (rows.map (·.1)) (rows.map (·.2)) g), ?_, ?_⟩
+  · rw [List.getElem?_map, hi, ← grouped_fold_perm f dflt hc ha h g]; rfl
+  · rw [List.getElem?_map, hj]; rfl
+
+example : ([(3, 4), (5, 1), (0, 2), (5, 3)] : List (Int × Rat)).Perm [(5, 1), (0, 2), (5, 3), (3, 4)] := by
+  decide +kernel
+
+/-! ## 5. invariance under relabelling of the group ids -/
+
+/-- C11.5 Renaming the group ids by a map that is injective on the occurring ids (and keeps
+them non-negative) does not change the result. -/
+theorem grouped_relabel {α : Type} (f : α → α → α) (dflt : α) (col : List α) (gid : List Int)
+    (ρ : Int → Int) (h : WF gid col)
+    (hinj : ∀ a ∈ gid, ∀ b ∈ gid, ρ a = ρ b → a = b) (hnn : ∀ a ∈ gid, 0 ≤ ρ a) :
+    grouped f dflt col (gid.map ρ) = grouped f dflt col gid := by
+  have h' : WF (gid.map ρ) col := by
+    refine ⟨by simpa using h.1, ?_⟩
+    intro g hg
+    obtain ⟨a, ha, rfl⟩ := List.mem_map.1 hg
+    exact hnn a ha
+  rw [grouped_eq f dflt col _ h', grouped_eq f dflt col gid h, List.map_map]
+  congr 1
+  apply List.map_congr_left
+  intro g hg
+  simp only [Function.comp]
+  rw [members_relabel ρ gid hinj g hg gid col (fun _ h => h)]
+
+example : let ρ : Int → Int := fun g => 100 - 7 * g
+    (∀ a ∈ ([5, 0, 5, 3] : List Int), ∀ b ∈ ([5, 0, 5, 3] : List Int), ρ a = ρ b → a = b) ∧
+    ∀ a ∈ ([5, 0, 5, 3] : List Int), 0 ≤ ρ a := by
+  decide
+
+/-! ## 6. conservation of the total -/
+
+/-- C11.6 (generic) summing the group sums over any duplicate-free list of ids that covers the
+occurring ids gives the column total. -/
+theorem sum_conservation_ids (col : List Rat) (gid ids : List Int) (hlen : gid.length = col.length)
+    (hnd : ids.Nodup) (hcov : ∀ g ∈ gid, g ∈ ids) :
+    (ids.map fun g => (members gid col g).sum).sum = col.sum :=
+  sum_groups_eq_total ids hnd gid col hlen hcov
+
+/-- C11.6 summing the group sums over the distinct ids gives the column total. -/
+theorem sum_conservation (col : List Rat) (gid : List Int) (hlen : gid.length = col.length) :
+    (gid.eraseDups.map fun g => (members gid col g).sum).sum = col.sum :=
+  sum_groups_eq_total _ (nodup_eraseDups gid) gid col hlen (fun _ hg => List.mem_eraseDups.2 hg)
+
+example : ([5, 0, 5, 3] : List Int).eraseDups = [5, 0, 3] := by decide
+
+/-! ## 7. the guards are loud -/
+
+/-- C11.7a a negative group id (lengths equal) raises `ValueError`. -/
+theorem grouped_neg_id_error {α : Type} (f : α → α → α) (dflt : α) (col : List α) (gid : List Int)
+    (hlen : gid.length = col.length) (hneg : ∃ g ∈ gid, g < 0) :
+    grouped f dflt col gid = .error .valueError := by
+  unfold grouped
+  rw [guard_neg_error gid col.length hlen hneg]
+  rfl
+
+/-- C11.7b different lengths of column and group id raise the shape error. -/
+theorem grouped_length_error {α : Type} (f : α → α → α) (dflt : α) (col : List α) (gid : List Int)
+    (hlen : gid.length ≠ col.length) :
+    grouped f dflt col gid = .error .shape := by
+  unfold grouped
+  rw [guard_length_error gid col.length hlen]
+  rfl
+
+example : groupedSum [1, 2, 3] [5, -1, 5] = .error .valueError := by decide +kernel
+example : groupedSum [1, 2, 3] [5, 0] = .error .shape := by decide +kernel
+
+/-! ## 8. `sum_by_p_id` -/
+
+/-- C11.8 `sum_by_p_id`: with duplicate-free receiver ids, every receiver `p ≥ 0` is credited
+the sum of the rows pointing to it; rows with a negative pointer are credited nowhere (so a
+receiver with a negative id gets 0). -/
+theorem sumByPid_spec (col : List Rat) (ptr pid : List Int) (hnd : pid.Nodup)
+    (hlen : ptr.length = col.length) (hmem : ∀ r ∈ ptr, 0 ≤ r → r ∈ pid) :
+    sumByPid col ptr pid =
+      .ok (pid.map fun p => if 0 ≤ p then (members ptr col p).sum else 0) := by
+  unfold sumByPid
+  simp only [ne_eq, hlen, not_true_eq_false, if_false]
+  rw [sumByPidLoop_spec pid hnd ptr col _ hlen (by simp) hmem, zipWith_zero_add]
+  rfl
+
+/-- C11.8' the same for non-negative receiver ids, without the case distinction. -/
+theorem sumByPid_spec_nonneg (col : List Rat) (ptr pid : List Int) (hnd : pid.Nodup)
+    (hnn : ∀ p ∈ pid, 0 ≤ p)
+    (hlen : ptr.length = col.length) (hmem : ∀ r ∈ ptr, 0 ≤ r → r ∈ pid) :
+    sumByPid col ptr pid = .ok (pid.map fun p => (members ptr col p).sum) := by
+  rw [sumByPid_spec col ptr pid hnd hlen hmem]
+  congr 1
+  apply List.map_congr_left
+  intro p hp
+  simp [hnn p hp]
+
+/-- C11.8'' a non-negative pointer without receiver raises `KeyError`. -/
+theorem sumByPid_missing_receiver (col : List Rat) (ptr pid : List Int)
+    (hlen : ptr.length = col.length) (hbad : ∃ r ∈ ptr, 0 ≤ r ∧ r ∉ pid) :
+    sumByPid col ptr pid = .error .keyError := by
+  unfold sumByPid
+  simp only [ne_eq, hlen, not_true_eq_false, if_false]
+  exact sumByPidLoop_missing pid ptr col _ hlen hbad
+
+/-- C11.8''' different lengths of column and pointer raise the shape error. -/
+theorem sumByPid_length_error (col : List Rat) (ptr pid : List Int)
+    (hlen : ptr.length ≠ col.length) : sumByPid col ptr pid = .error .shape := by
+  simp [sumByPid, hlen]
+
+example : sumByPid [10, 20, 30, 40] [7, -1, 7, 2] [2, 9, 7] = .ok [40, 0, 40] := by decide +kernel
+example : ([2, 9, 7] : List Int).Nodup ∧ ∀ r ∈ ([7, -1, 7, 2] : List Int), 0 ≤ r → r ∈ ([2, 9, 7] : List Int) := by
+  decide
+example : sumByPid [10, 20] [7, 4] [2, 9, 7] = .error .keyError := by decide +kernel
+
+/-! ## 9. `join_numpy` -/
+
+/-- C11.9 `join_numpy`: with duplicate-free primary keys, a foreign key that occurs among the
+primary keys gets the target value at the position of that key, every other (then negative)
+foreign key gets the default. -/
+theorem join_spec {α : Type} (fk pk : List Int) (target : List α) (dflt : α) (hnd : pk.Nodup)
+    (hlen : target.length = pk.length) (hmem : ∀ k ∈ fk, 0 ≤ k → k ∈ pk) :
+    joinNumpy fk pk target dflt = .ok (fk.map fun k =>
+      if h : k ∈ pk then target[pk.idxOf k]'(hlen ▸ List.idxOf_lt_length_iff.2 h) else dflt) := by
+  have h1 : hasDup pk = false := (hasDup_eq_false_iff pk).2 hnd
+  have h2 : fk.any (fun k => k ≥ 0 && !pk.contains k) = false := by
+    simp only [List.any_eq_false, Bool.and_eq_true, decide_eq_true_eq, Bool.not_eq_true',
+      List.contains_eq_mem, decide_eq_false_iff_not, not_and, not_not]
+    intro k hk h0; exact hmem k hk h0
+  unfold joinNumpy
+  simp only [h1, h2, hlen, ne_eq, not_true_eq_false, if_false, Bool.false_eq_true]
+  congr 1
+  apply List.map_congr_left
+  intro k _
+  rw [firstIdx_eq]
+  by_cases hk : k ∈ pk
+  · have : pk.idxOf k < target.length := hlen ▸ List.idxOf_lt_length_iff.2 hk
+    simp [hk, List.getD_eq_getElem?_getD, this]
+  · simp [hk]
+
+/-- C11.9' position characterisation: with duplicate-free primary keys, a foreign key equal to
+the `i`-th primary key is mapped to the `i`-th target value. -/
+theorem join_spec_at {α : Type} (fk pk : List Int) (target : List α) (dflt : α) (hnd : pk.Nodup)
+    (hlen : target.length = pk.length) (hmem : ∀ k ∈ fk, 0 ≤ k → k ∈ pk) :
+    ∃ res, joinNumpy fk pk target dflt = .ok res ∧ res.length = fk.length ∧
+      ∀ (j : Nat) (k : Int), fk[j]? = some k →
+        (∀ i : Nat, pk[i]? = some k → res[j]? = target[i]?) ∧ (k ∉ pk → res[j]? = some dflt) := by
+  refine ⟨_, join_spec fk pk target dflt hnd hlen hmem, by simp, ?_⟩
+  intro j k hj
+  constructor
+  · intro i hi
+    have hk : k ∈ pk := List.mem_of_getElem? hi
+    obtain ⟨hilt, hik⟩ := List.getElem?_eq_some_iff.1 hi
+    have hidx : pk.idxOf k = i := by
+      have h1 : pk.idxOf k < pk.length := List.idxOf_lt_length_iff.2 hk
+      have h2 : pk[pk.idxOf k] = k := List.getElem_idxOf h1
+      exact (List.getElem_inj hnd).1 (h2.trans hik.symm)
+    subst hidx
+    simp [hj, hk, hlen ▸ hilt]
+  · intro hk
+    simp [hj, hk]
+
+/-- C11.9'' duplicate primary keys raise `ValueError`. -/
+theorem join_dup_pk_error {α : Type} (fk pk : List Int) (target : List α) (dflt : α)
+    (hdup : ¬ pk.Nodup) : joinNumpy fk pk target dflt = .error .valueError := by
+  have h1 : hasDup pk = true := by
+    cases h : hasDup pk with
+    | true => rfl
+    | false => exact absurd ((hasDup_eq_false_iff pk).1 h) hdup
+  simp [joinNumpy, h1]
+
+/-- C11.9''' a non-negative foreign key that is no primary key raises `ValueError`. -/
+theorem join_missing_pk_error {α : Type} (fk pk : List Int) (target : List α) (dflt : α)
+    (hbad : ∃ k ∈ fk, 0 ≤ k ∧ k ∉ pk) : joinNumpy fk pk target dflt = .error .valueError := by
+  have h2 : fk.any (fun k => k ≥ 0 && !pk.contains k) = true := by
+    simp only [List.any_eq_true, Bool.and_eq_true, decide_eq_true_eq, Bool.not_eq_true',
+      List.contains_eq_mem, decide_eq_false_iff_not]
+    exact hbad
+  unfold joinNumpy
+  rw [h2]
+  split <;> rfl
+
+/-- C11.9'''' (primary keys fine, foreign keys fine) a target of the wrong length raises the
+shape error. -/
+theorem join_length_error {α : Type} (fk pk : List Int) (target : List α) (dflt : α)
+    (hnd : pk.Nodup) (hmem : ∀ k ∈ fk, 0 ≤ k → k ∈ pk) (hlen : target.length ≠ pk.length) :
+    joinNumpy fk pk target dflt = .error .shape := by
+  have h1 : hasDup pk = false := (hasDup_eq_false_iff pk).2 hnd
+  have h2 : fk.any (fun k => k ≥ 0 && !pk.contains k) = false := by
+    simp only [List.any_eq_false, Bool.and_eq_true, decide_eq_true_eq, Bool.not_eq_true',
+      List.contains_eq_mem, decide_eq_false_iff_not, not_and, not_not]
+    intro k hk h0; exact hmem k hk h0
+  unfold joinNumpy
+  rw [h1, h2]
+  simp [hlen]
+
+example : joinNumpy [7, -1, 2, 7] [2, 9, 7] ["a", "b", "c"] "-" = .ok ["c", "-", "a", "c"] := by
+  decide
+example : ([2, 9, 7] : List Int).Nodup ∧
+    ∀ k ∈ ([7, -1, 2, 7] : List Int), 0 ≤ k → k ∈ ([2, 9, 7] : List Int) := by decide
+example : joinNumpy [7] [2, 7, 2] ["a", "b", "c"] "-" = .error .valueError := by decide
+example : joinNumpy [7, 4] [2, 9, 7] ["a", "b", "c"] "-" = .error .valueError := by decide
+
+end GV.Agg
